@@ -70,6 +70,7 @@ func runC08(c *Ctx, r *Report) {
 		c08r3(c, r)
 	}
 	c08r8(c, r)
+	c08r15(c, r)
 	c08r9(c, r)
 	c08r10(c, r)
 	c04r9(c, r) // convergence: a merger cached under another configuration must not be served
